@@ -28,6 +28,9 @@ pub struct ConcCfg {
     pub clock_small: bool,
     /// sampled I/O faults on library calls in a third of the runs
     pub sampled_faults: bool,
+    /// in a third of the runs everybody stalls once for two hours (staged
+    /// temp files age past the limit under their owners' feet)
+    pub clock_jump: bool,
     /// stale temp files (crash debris older than the age limit) are planted
     pub debris: bool,
     /// one run in `focus` (0 = never) hammers ONE key with puts/sets while the
@@ -89,6 +92,8 @@ fn draw_op(t: &mut Tape, names: &[&'static str], tag: u32, is_stack: bool) -> Op
                     Op::Put { tag, plen }
                 }
             }
+            "set_missing" => Op::Set { tag, plen: MISSING_SOURCE },
+            "put_missing" => Op::Put { tag, plen: MISSING_SOURCE },
             "ensure" if is_stack => Op::Ensure { tag, plen, err: PopErr::None },
             "gou" if is_stack => Op::GetOrUpdate { action: *t.pick(&[Action::Accept, Action::Promote, Action::Replace]), judge_reads: *t.pick(&[0usize, 3]), tag, plen, err: PopErr::None },
             "ensure" | "gou" => Op::Get,
@@ -251,6 +256,7 @@ pub fn run_conc(tape: &mut Tape, cfg: &ConcCfg, detail: bool) -> ConcRun {
     let stay = [950u64, 850, 600, 300][w.draw(4) as usize];
     let mut frozen_at = None;
     let mut crashed_proc = None;
+    let mut jumped: Option<u64> = None;
     {
         let hold = if w.draw(5) == 4 { Some((w.draw(nparts as u64) as usize, 1 + w.draw(25))) } else { None };
         let mut st = w.sim.lock();
@@ -273,7 +279,13 @@ pub fn run_conc(tape: &mut Tape, cfg: &ConcCfg, detail: bool) -> ConcRun {
             crashed_proc = Some(part_proc[victim]);
         }
         st.sched.max_steps = 60_000;
+        if cfg.clock_jump && st.tape.draw(3) == 0 {
+            let at = 1 + st.tape.draw(80);
+            st.sched.jump_at = Some((at, 7_200_000_000_000));
+            jumped = Some(at);
+        }
     }
+    desc.push(format!("two_hour_stall_at_step={:?}", jumped));
     let mut fault_rate = 0u64;
     if cfg.sampled_faults && w.draw(3) == 0 {
         fault_rate = [10u64, 25, 50][w.draw(3) as usize];
@@ -316,7 +328,7 @@ pub fn run_conc(tape: &mut Tape, cfg: &ConcCfg, detail: bool) -> ConcRun {
         let adv_count = adv_count.clone();
         let freeze = cfg.freeze;
         bodies.push(Box::new(move || {
-            let env = OpEnv { sim: sim.clone(), proc, part: p as i32, scratch: SCRATCH.to_string(), chunk };
+            let env = OpEnv { sim: sim.clone(), proc, part: p as i32, scratch: SCRATCH.to_string(), chunk, temp_mode: None, link_from: None };
             for (i, step) in prog.iter().enumerate() {
                 let op_id = (p as u32 + 1) * 1000 + i as u32;
                 match step {
@@ -428,4 +440,30 @@ pub fn describe(run: &ConcRun, trace_lines: usize) -> Vec<String> {
     v.push("--- trace tail".to_string());
     v.extend(trace_tail(&run.trace, trace_lines));
     v
+}
+
+
+/// "put onto an existing key leaves its content and queue position
+/// unchanged": every operation with insert-if-absent semantics (put,
+/// put_temp_file, ensure, get_or_update with Accept or Promote -- promotion
+/// and the miss path publish with put) must never replace an entry that is
+/// there at the instant it publishes, whoever put it there.  Returns the first
+/// offending operation.
+pub fn putlike_overwrite(run: &ConcRun) -> Option<crate::runner::Violation> {
+    for r in run.results.iter() {
+        let putlike = match &r.op {
+            Op::Put { .. } | Op::PutTemp { .. } | Op::Ensure { .. } => true,
+            Op::GetOrUpdate { action, .. } => *action != Action::Replace,
+            _ => false,
+        };
+        if !putlike || r.crashed {
+            continue;
+        }
+        for t in run.trace.iter().filter(|t| t.part == r.part && t.op == r.op_id && t.lib && t.kind == kismet_vfs::kernel::K::Rename && t.err == 0) {
+            if t.ino2 != 0 && t.ino2 != t.ino && matches!(classify(&run.w.dirs, &t.path2), Loc::Key { .. }) {
+                return Some(crate::runner::Violation::new("put-overwrote", format!("{} has insert-if-absent semantics but replaced the entry {} (inode {} by inode {}): {}", r.op.name(), t.path2, t.ino2, t.ino, r.short())));
+            }
+        }
+    }
+    None
 }
